@@ -117,9 +117,9 @@ def configs(tier):
             for v in (0, 2):
                 b = b3
                 out.append({'k': 3, 'scripts': sc, 'N': N, 'v': v, 'cap': 64, 'bound': b, 'id': 'k3t%d' % ti})
+    quad = {'La': script(b'La', REPORT_A, wait='Ld'), 'Lb': script(b'Lb', REPORT_C, dots=False),
+            'Lc': script(b'Lc', REPORT_A, dots=False), 'Ld': script(b'Ld', REPORT_B)}
     if tier == 'thorough':
-        quad = {'La': script(b'La', REPORT_A, wait='Ld'), 'Lb': script(b'Lb', REPORT_C, dots=False),
-                'Lc': script(b'Lc', REPORT_A, dots=False), 'Ld': script(b'Ld', REPORT_B)}
         for N in (2, 3, 4, 5):
             for v in (0, 2):
                 out.append({'k': 4, 'scripts': quad, 'N': N, 'v': v, 'cap': 64, 'bound': 1, 'id': 'k4'})
@@ -150,6 +150,13 @@ def configs(tier):
             for v in (0, 2):
                 out.append({'k': 3, 'scripts': sc, 'N': N, 'v': v, 'cap': 64, 'bound': b3,
                             'id': 'x3t%d' % ti, 'x': True})
+    if tier == 'quick':
+        # progress ("up to N layers do make progress at the same time"): the
+        # head layer only proceeds once the 2N-th layer has been started, i.e.
+        # the parent must keep refilling freed slots while N results of layers
+        # that finished early are waiting behind the head layer's output
+        for v in (0, 2):
+            out.append({'k': 4, 'scripts': quad, 'N': 2, 'v': v, 'cap': 64, 'bound': 1, 'id': 'k4'})
     # children whose report is cut short / missing, under every interleaving
     # (C07's fault alphabet runs with inline threads; here the schedules vary)
     CUT = [('err', b'2 1 1\n'), ('err', b'failB (m.T.failB)\n')]
